@@ -1659,6 +1659,8 @@ class ListProxy(list):
         if isinstance(index, (int, slice)):
             if self._parameter.names:
                 self._warn('[index] = object')
+            if isinstance(index, slice):
+                object = list(object)
             with self._trigger():
                 super().__setitem__(index, object)
                 self._parameter._objects[index] = object
@@ -1706,6 +1708,7 @@ class ListProxy(list):
     def extend(self, objects):
         if self._parameter.names:
             self._warn('.append')
+        objects = list(objects)
         with self._trigger():
             super().extend(objects)
             self._parameter._objects.extend(objects)
